@@ -76,6 +76,7 @@ type OpArgs struct {
 	ShouldMins int        `json:"should_mins,omitempty"`
 	NoTags     bool       `json:"no_tags,omitempty"`
 	Extend     bool       `json:"extend,omitempty"`
+	Invalid    bool       `json:"invalid,omitempty"` // an argument klog must refuse (it would yield an invalid file)
 	Why        string     `json:"why,omitempty"` // what this operation was built to exercise
 }
 
